@@ -210,7 +210,7 @@ def run(R):
             g = pfr.edge_guards(bb)
             R.check(any('trailers' in show(tm) and show(tm).startswith('discr(') and vals in ([0], ['else']) for s, vals, tm in g), 'C02.R4', 'trailers-set-only-when-none', site(pfr, bb, i), 'self.trailers assigned only when it was None')
         pt = pfr.calls(name='put')
-        R.check(len(pt) == 1 and mentions_field(pfr.origin(pt[0][1]['args'][0]), 'buf') and mentions_call(pfr.origin(pt[0][1]['args'][1]), name='into_data'), 'C02.R4', 'data-appended', site(pfr), 'data frames are appended to buf')
+        R.check(len(pt) == 1 and mentions_field(pfr.origin(pt[0][1]['args'][0]), decode_buf_fields(tonic)[0]) and mentions_call(pfr.origin(pt[0][1]['args'][1]), name='into_data'), 'C02.R4', 'data-appended', site(pfr), 'data frames are appended to buf')
 
         # outcome table of poll_frame: Ok(Some(())) = "data arrived, run the decoder again", Ok(None) = "the body is over": a data frame
         # (empty or not) is never reported as the end of the body
